@@ -26,8 +26,8 @@ SPECS = {
     "LinearModel": [{}, {"gemini": "wasserstein_ova", "batch_size": 2}, {"batch_size": 2, "_mlcl": True}], "LinearMMD": [{"kernel": "rbf_g"}, {"kernel": "pre_psd"}, {"kernel": "pre_roundsym", "batch_size": 5}],
     "LinearWasserstein": [{"ovo": True}, {"metric": "pre_rounddist"}], "RIM": [{"batch_size": 3}], "KernelRIM": [{}, {"base_kernel": "rbf_g", "batch_size": 2}],
     "MLPModel": [{}, {"gemini": "mi", "batch_size": 2}, {"batch_size": 3, "_mlcl": True}], "MLPMMD": [{"ovo": True}], "MLPWasserstein": [{"metric": "l1"}],
-    "SparseLinearModel": [{"alpha": 0.3}, {"alpha": 0.3, "dynamic": True, "batch_size": 2}, {"alpha": 0.3, "batch_size": 2, "_mlcl": True}], "SparseLinearMMD": [{"alpha": 0.3, "groups": [[0, 1]]}, {"alpha": 0.3, "groups": [[1]]}],
-    "SparseLinearMI": [{"alpha": 0.3}, {"alpha": 0.0}], "SparseMLPModel": [{"alpha": 0.3}], "SparseMLPMMD": [{"alpha": 0.3, "batch_size": 3}],
+    "SparseLinearModel": [{"alpha": 0.3}, {"alpha": 0.3, "dynamic": True, "batch_size": 2}, {"alpha": 0.3, "batch_size": 2, "_mlcl": True}], "SparseLinearMMD": [{"alpha": 0.3, "groups": [[0, 1]]}, {"alpha": 0.3, "groups": [[1]]}, {"alpha": 0.3, "kernel": "pre_psd", "dynamic": True}],
+    "SparseLinearMI": [{"alpha": 0.3}, {"alpha": 0.0}], "SparseMLPModel": [{"alpha": 0.3}], "SparseMLPMMD": [{"alpha": 0.3, "batch_size": 3}, {"alpha": 0.3, "kernel": "pre_psd", "dynamic": True, "ovo": True}],
     "CategoricalModel": [{}], "CategoricalMMD": [{"kernel": "rbf"}], "CategoricalWasserstein": [{}, {"metric": "pre_rounddist", "ovo": True}],
     "Kauri": [{}, {"max_features": 1, "max_clusters": 4}, {"max_clusters": 6, "max_leaves": 9}, {"kernel": "pre_psd"}], "Douglas": [{}, {"n_cuts": 2, "batch_size": 2}],
 }
